@@ -325,11 +325,20 @@ def set_backend(name):
 BACKENDS = ["numpy", "numpy", "numpy", "numpy", "torch", "torch", "numpy:float32", "torch:float32"]
 
 
-def effective_backend(name, values):
-    """float32 only for models whose positive entries lie within [1e-3, 1e3] (single precision cannot represent products of
-    many tiny potentials); otherwise the same backend in double precision."""
-    if name.endswith(":float32"):
-        pos = [abs(x) for x in values if x]
-        if pos and (min(pos) < 1e-3 or max(pos) > 1e3):
-            return name.split(":")[0]
+def effective_backend(name, factors):
+    """factors: one list of values per factor / CPD of the model.
+    float32 only for models whose positive entries lie within [1e-3, 1e3] (single precision cannot represent products of
+    many tiny potentials); otherwise the same backend in double precision.  torch in double precision still builds every
+    factor through a float32 tensor (known finding C01:...float32): models whose full product could leave the float32 range
+    (about 1e-38 .. 3e38; clique potentials are such products) run under numpy instead."""
+    import math
+
+    flat = [abs(x) for f in factors for x in f if x]
+    if name.endswith(":float32") and flat and (min(flat) < 1e-3 or max(flat) > 1e3):
+        name = name.split(":")[0]
+    if name.startswith("torch") and flat:
+        hi = sum(math.log10(max(abs(x) for x in f if x)) for f in factors if any(f))
+        lo = sum(math.log10(min(abs(x) for x in f if x)) for f in factors if any(f))
+        if hi > 30 or lo < -30:
+            return "numpy"
     return name
